@@ -114,6 +114,8 @@ func c20Gen(r *core.Rng) c20Case {
 			cs.Ops = append(cs.Ops, c20Op{Kind: "clean"})
 		case k == 12 && r.Chance(1, 2):
 			cs.Ops = append(cs.Ops, c20Op{Kind: "pack"})
+		case k == 12:
+			cs.Ops = append(cs.Ops, c20Op{Kind: core.Pick(r, []string{"detach", "detach", "attach"})})
 		case k == 11 && r.Chance(1, 2):
 			// a branch named like a tag the tool handles
 			cs.Ops = append(cs.Ops, c20Op{Kind: "branch", Arg: core.Pick(r, []string{"v3", "v4", "v3.2.0", "release"})})
@@ -193,7 +195,11 @@ func (g *c20Repo) state() c20State {
 		}
 	}
 	st.Head = g.git("rev-parse", "HEAD")
-	st.HeadSym = g.git("symbolic-ref", "HEAD")
+	if r := core.RunCmd(g.dir, g.env, 60*time.Second, "git", "symbolic-ref", "-q", "HEAD"); r.Exit == 0 {
+		st.HeadSym = strings.TrimSpace(r.Stdout)
+	} else {
+		st.HeadSym = "(detached)"
+	}
 	st.Status = g.git("status", "--porcelain=v1", "-uall")
 	st.Index = g.git("ls-files", "-s")
 	snap, _ := world.Snap(g.dir)
@@ -303,6 +309,15 @@ func evalC20(c *core.Ctx, cs c20Case, id string) Outcome {
 		case "pack":
 			g.git("pack-refs", "--all")
 			packed = true
+		case "detach":
+			if st := g.git("status", "--porcelain=v1", "-uall"); st == "" {
+				g.git("checkout", "-q", "--detach", "HEAD")
+				out.Tags = append(out.Tags, "fault:detached-head")
+			}
+		case "attach":
+			if st := g.git("status", "--porcelain=v1", "-uall"); st == "" {
+				g.try("checkout", "-q", "main")
+			}
 		case "version":
 			version = op.Arg
 			os.WriteFile(envFile, []byte("VERSION="+version+"\n"), 0o644)
